@@ -14,6 +14,7 @@ import (
 
 	"verif/engine"
 	"verif/fw"
+	"verif/refmodel"
 	"verif/world"
 )
 
@@ -129,6 +130,98 @@ func s2RunSteps(c *fw.Case, prop string, p *engine.Profile, steps []engine.Step)
 		c.Count("crashes_injected", int64(e.Crashes))
 		c.Count("executions_with_a_process_kill", 1)
 	}
+	return e
+}
+
+
+// s2ElectionSpansCommitAndApply is a directed schedule for the stale-writer class that random perturbation reaches too
+// rarely: the mastership controller is pre-empted between reading a configuration and listing the target's relations;
+// meanwhile a Set is committed and applied over the old master connection, and the connection is replaced. When the
+// controller resumes it elects the new master and writes the configuration it read before the commit and the apply:
+// nothing of what they wrote may be lost (stored configuration, applied values and - after the re-sync of the new
+// term - the device must hold the second Set). Everything is judged by the ordinary oracles.
+func s2ElectionSpansCommitAndApply(c *fw.Case, prop string, deleteVariant bool) *engine.Exec {
+	p := &engine.Profile{Targets: []string{"t1"}}
+	opts := world.Options{Targets: p.Targets}
+	w, err := world.New(opts)
+	if err != nil {
+		c.Inconclusive("world: " + err.Error())
+		return nil
+	}
+	defer w.Close()
+	e := &engine.Exec{C: c, W: w, P: p, Opts: opts}
+	var armed, holding int32
+	held := make(chan struct{})
+	release := make(chan struct{})
+	w.SetDelay(func(kind string) {
+		if kind == "topo.List" && strings.HasPrefix(world.CurrentTask(), "mastership:") && atomic.CompareAndSwapInt32(&armed, 1, 0) {
+			atomic.StoreInt32(&holding, 1)
+			close(held)
+			select {
+			case <-release:
+			case <-time.After(20 * time.Second):
+			}
+		}
+	})
+	wait := func(call *engine.Call, d time.Duration) bool {
+		select {
+		case <-call.Done():
+			return true
+		case <-time.After(d):
+			return false
+		}
+	}
+	script := []string{}
+	say := func(f string, a ...interface{}) { script = append(script, fmt.Sprintf(f, a...)) }
+	connA := w.Connect("t1")
+	say("CONNECT t1 -> %s", connA)
+	c1 := e.IssueSet([]refmodel.Op{up("t1", "/foo", "v1"), up("t1", "/a/b", "keep")}, true)
+	if !wait(c1, 30*time.Second) {
+		c.Inconclusive("the first Set was not answered")
+		return nil
+	}
+	say("%s set(sync) /foo=v1 /a/b=keep: applied", c1.Name())
+	atomic.StoreInt32(&armed, 1)
+	ops := []refmodel.Op{up("t1", "/foo", "v2"), up("t1", "/bar", "new")}
+	if deleteVariant {
+		ops = []refmodel.Op{del("t1", "/a"), up("t1", "/bar", "new")}
+	}
+	c2 := e.IssueSet(ops, true)
+	say("%s set(sync) %v issued with the mastership controller armed to be held at its next topo.List", c2.Name(), ops)
+	select {
+	case <-held:
+		say("mastership controller held between its read of the configuration and its listing of the relations")
+	case <-time.After(10 * time.Second):
+		// no mastership reconcile happened to be scheduled: nothing directed can be observed, the history is judged as it is
+		say("no mastership reconcile was scheduled while the second Set ran")
+	}
+	if !wait(c2, 30*time.Second) {
+		c.Inconclusive("the second Set was not answered")
+		return nil
+	}
+	say("second Set applied over %s", connA)
+	if atomic.LoadInt32(&holding) == 1 {
+		w.Disconnect("t1")
+		connB := w.Connect("t1")
+		say("REPLACE-CONN t1 -> %s", connB)
+		for dl := time.Now().Add(10 * time.Second); time.Now().Before(dl); {
+			if rel := w.Topo.Relations("t1"); len(rel) == 1 && rel[0] == connB {
+				break
+			}
+			time.Sleep(2 * time.Millisecond)
+		}
+		close(release)
+		say("mastership controller released: it sees only the new relation and elects it")
+		c.Count("directed_elections_spanning_a_commit_and_an_apply", 1)
+	}
+	e.Script = append(e.Script, script...)
+	e.Settle(8*time.Second, 90*time.Second)
+	j := e.Judge()
+	e.FixedPoint(j)
+	e.CancelAll()
+	s2Report(c, prop, e, j)
+	c.Class(fmt.Sprintf("directed:election-spans-commit-and-apply delete=%v", deleteVariant))
+	c.Sample(map[string]interface{}{"script": e.Script, "goal_reached": e.GoalReached})
 	return e
 }
 
